@@ -64,7 +64,7 @@ Section Gap.
   Let ldk := last_z data.
 
   Theorem search_gap_pos q : c_epsrec c <> 0 -> last_z data < q -> q < sentinel c ->
-    float_ok c data (Z.max (hd 0 data) q) ->
+    float_ok_cap c data (Z.max (hd 0 data) q) ->
     exists pos tr,
       search_tr c ix q = Ok (mkApprox pos (PGM_SUB_EPS pos (c_eps c)) (PGM_ADD_EPS pos (c_eps c) n), tr) /\
       n - c_eps c - 2 <= pos <= n + c_eps c /\ 0 <= pos /\ Forall (entry_le (gapB c)) tr.
@@ -128,16 +128,16 @@ Section Gap.
   Qed.
 
   (* C02 for every query below the sentinel, every EpsilonRecursive, both routing regimes *)
-  Theorem C02_search q : q < sentinel c -> float_ok c data (Z.max (hd 0 data) q) ->
+  Theorem C02_search_cap q : q < sentinel c -> float_ok_cap c data (Z.max (hd 0 data) q) ->
     exists a, search c ix q = Ok a /\
       0 <= a_lo a /\ a_lo a <= lb data q /\ lb data q <= a_hi a /\ a_hi a <= zlen data /\
       a_hi a - a_lo a <= 2 * c_eps c + 2 /\ a_lo a <= a_pos a.
   Proof.
     intros Hq Hfl. destruct (Z_le_gt_dec q (last_z data)) as [Hle|Hgt].
-    { exact (C02_search_partial c data ix Hbits Heps Hrec0 Hrec64 Hpar Hne Hs Hkt Hlast Hn32 Hn64 Hbuild Hsegs32 q Hle Hfl). }
+    { exact (C02_search_partial_cap c data ix Hbits Heps Hrec0 Hrec64 Hpar Hne Hs Hkt Hlast Hn32 Hn64 Hbuild Hsegs32 q Hle Hfl). }
     destruct (Z.eq_dec (c_epsrec c) 0) as [E0|E0].
     { destruct Hfl as [Hf0 _].
-      exact (C02_search0 c data ix Hbits E0 Heps Hpar Hne Hs Hkt Hlast Hn32 Hn64 Hbuild q Hq Hf0). }
+      exact (C02_search0_cap c data ix Hbits E0 Heps Hpar Hne Hs Hkt Hlast Hn32 Hn64 Hbuild q Hq Hf0). }
     destruct (search_gap_pos q E0 ltac:(lia) Hq Hfl) as (pos & tr & Es & Hb & Hp0 & _).
     eexists. split; [unfold search; rewrite Es; reflexivity|]. cbn [bind fst a_lo a_hi a_pos].
     rewrite (lb_beyond c data Hbits Hne Hs Hkt Hlast q ltac:(lia)). pose proof (zlen_ge0 data) as Hn0. fold n in Hn0.
@@ -145,17 +145,17 @@ Section Gap.
     cbn zeta in Hwin. fold n. lia.
   Qed.
 
-  Corollary C02_pred_search q : q < sentinel c -> float_ok c data (Z.max (hd 0 data) q) ->
+  Corollary C02_pred_search_cap q : q < sentinel c -> float_ok_cap c data (Z.max (hd 0 data) q) ->
     exists a, search c ix q = Ok a /\ C02_pred_b data q a = true.
   Proof.
-    intros Hq Hfl. destruct (C02_search q Hq Hfl) as (a & Es & H).
+    intros Hq Hfl. destruct (C02_search_cap q Hq Hfl) as (a & Es & H).
     exists a. split; [exact Es|]. apply C02_pred_b_of_bounds; [exact Hs | lia..].
   Qed.
 
   (* C07 for every query below the sentinel: the per-level bound is 2*EpsilonRecursive+3 on the
      binary-search path (and for q <= last key on both paths); on the linear-scan path for
      last < q < sentinel the proof gives 2*EpsilonRecursive+4 (see the end of the file) *)
-  Theorem C07_route_trace_wide q : q < sentinel c -> float_ok c data (Z.max (hd 0 data) q) ->
+  Theorem C07_route_trace_wide_cap q : q < sentinel c -> float_ok_cap c data (Z.max (hd 0 data) q) ->
     exists a tr, search_tr c ix q = Ok (a, tr) /\
       Forall (fun t => let '(l, wlo, f, la) := t in
                 la - f + 1 <= 2 * c_epsrec c + 3 +
@@ -163,28 +163,54 @@ Section Gap.
                 /\ wlo <= f) tr.
   Proof.
     intros Hq Hfl. destruct (Z_le_gt_dec q (last_z data)) as [Hle|Hgt].
-    { destruct (C07_route_trace_partial c data ix Hbits Heps Hrec0 Hrec64 Hpar Hne Hs Hkt Hlast Hn32 Hn64 Hbuild Hsegs32 q Hle Hfl)
+    { destruct (C07_route_trace_partial_cap c data ix Hbits Heps Hrec0 Hrec64 Hpar Hne Hs Hkt Hlast Hn32 Hn64 Hbuild Hsegs32 q Hle Hfl)
         as (a & tr & Es & Htr).
       exists a, tr. split; [exact Es|]. replace (last_z data <? q) with false by lia. cbn [andb].
       eapply Forall_impl; [|exact Htr]. intros [[[l wlo] f] la]. lia. }
     replace (last_z data <? q) with true by lia. cbn [andb].
     destruct (Z.eq_dec (c_epsrec c) 0) as [E0|E0].
-    { destruct (C02_search q Hq Hfl) as (a & Es & _). exists a, []. split; [|constructor].
+    { destruct (C02_search_cap q Hq Hfl) as (a & Es & _). exists a, []. split; [|constructor].
       exact (search_tr0 c ix Hrec0 Hrec64 q a E0 Es). }
     destruct (search_gap_pos q E0 ltac:(lia) Hq Hfl) as (pos & tr & Es & _ & _ & Htr).
     eexists. exists tr. split; [exact Es|]. exact Htr.
   Qed.
+
+  Corollary C07_route_trace_bsearch_cap q :
+    (c_epsrec c <=? pgm_linear_search_threshold (sizeof_segment c)) = false ->
+    q < sentinel c -> float_ok_cap c data (Z.max (hd 0 data) q) ->
+    exists a tr, search_tr c ix q = Ok (a, tr) /\
+      Forall (fun t => let '(l, wlo, f, la) := t in la - f + 1 <= 2 * c_epsrec c + 3 /\ wlo <= f) tr.
+  Proof.
+    intros Hbs Hq Hfl. destruct (C07_route_trace_wide_cap q Hq Hfl) as (a & tr & Es & Htr).
+    exists a, tr. split; [exact Es|]. rewrite Hbs, andb_false_r in Htr.
+    eapply Forall_impl; [|exact Htr]. intros [[[l wlo] f] la]. lia.
+  Qed.
+
+  (* the same under the stronger hypothesis float_ok (eval_ok without the cap disjunct) *)
+  Theorem C02_search q : q < sentinel c -> float_ok c data (Z.max (hd 0 data) q) ->
+    exists a, search c ix q = Ok a /\
+      0 <= a_lo a /\ a_lo a <= lb data q /\ lb data q <= a_hi a /\ a_hi a <= zlen data /\
+      a_hi a - a_lo a <= 2 * c_eps c + 2 /\ a_lo a <= a_pos a.
+  Proof. intros Hq Hfl. exact (C02_search_cap q Hq (float_ok_cap_of _ _ _ Hfl)). Qed.
+
+  Corollary C02_pred_search q : q < sentinel c -> float_ok c data (Z.max (hd 0 data) q) ->
+    exists a, search c ix q = Ok a /\ C02_pred_b data q a = true.
+  Proof. intros Hq Hfl. exact (C02_pred_search_cap q Hq (float_ok_cap_of _ _ _ Hfl)). Qed.
+
+  Theorem C07_route_trace_wide q : q < sentinel c -> float_ok c data (Z.max (hd 0 data) q) ->
+    exists a tr, search_tr c ix q = Ok (a, tr) /\
+      Forall (fun t => let '(l, wlo, f, la) := t in
+                la - f + 1 <= 2 * c_epsrec c + 3 +
+                  (if (last_z data <? q) && (c_epsrec c <=? pgm_linear_search_threshold (sizeof_segment c)) then 1 else 0)
+                /\ wlo <= f) tr.
+  Proof. intros Hq Hfl. exact (C07_route_trace_wide_cap q Hq (float_ok_cap_of _ _ _ Hfl)). Qed.
 
   Corollary C07_route_trace_bsearch q :
     (c_epsrec c <=? pgm_linear_search_threshold (sizeof_segment c)) = false ->
     q < sentinel c -> float_ok c data (Z.max (hd 0 data) q) ->
     exists a tr, search_tr c ix q = Ok (a, tr) /\
       Forall (fun t => let '(l, wlo, f, la) := t in la - f + 1 <= 2 * c_epsrec c + 3 /\ wlo <= f) tr.
-  Proof.
-    intros Hbs Hq Hfl. destruct (C07_route_trace_wide q Hq Hfl) as (a & tr & Es & Htr).
-    exists a, tr. split; [exact Es|]. rewrite Hbs, andb_false_r in Htr.
-    eapply Forall_impl; [|exact Htr]. intros [[[l wlo] f] la]. lia.
-  Qed.
+  Proof. intros Hbs Hq Hfl. exact (C07_route_trace_bsearch_cap q Hbs Hq (float_ok_cap_of _ _ _ Hfl)). Qed.
 End Gap.
 
 Print Assumptions C02_search.
